@@ -73,17 +73,20 @@ pub fn clone_h<Tr: ?Sized + Trait + Cloneable, B: Backend, E: Elem + SatisfyTrai
             tm.push(NEW_ID, E::norm(tag));
         }
         After::RemoveOrig | After::RemoveClone => {
-            assume(idx < n);
-            let (tv, tm) = if after == After::RemoveOrig { (&mut v, &mut m) } else { (&mut c, &mut mc) };
-            drop(tv.remove(idx));
-            let _ = tm.remove(idx);
+            // (an empty vector has nothing to remove: the instance then only checks the clone itself)
+            if idx < n {
+                let (tv, tm) = if after == After::RemoveOrig { (&mut v, &mut m) } else { (&mut c, &mut mc) };
+                drop(tv.remove(idx));
+                let _ = tm.remove(idx);
+            }
         }
         After::MutateOrig | After::MutateClone => {
-            assume(idx < n);
-            let t2 = any_u8();
-            let (tv, tm) = if after == After::MutateOrig { (&mut v, &mut m) } else { (&mut c, &mut mc) };
-            tv.at_mut(idx).downcast_mut::<E>().unwrap().set_tag(t2);
-            tm.tag[idx] = E::norm(t2);
+            if idx < n {
+                let t2 = any_u8();
+                let (tv, tm) = if after == After::MutateOrig { (&mut v, &mut m) } else { (&mut c, &mut mc) };
+                tv.at_mut(idx).downcast_mut::<E>().unwrap().set_tag(t2);
+                tm.tag[idx] = E::norm(t2);
+            }
         }
         After::ClearOrig => {
             v.clear();
